@@ -21,6 +21,7 @@ package asm
 
 import (
 	"github.com/llir/ll/ast"
+	"github.com/llir/llvm/internal/enc"
 	"github.com/llir/llvm/ir"
 	"github.com/llir/llvm/ir/types"
 	"github.com/llir/llvm/ir/value"
@@ -36,6 +37,9 @@ type funcGen struct {
 	// locals maps from local identifier (without '%' prefix) to corresponding IR
 	// value.
 	locals map[ir.LocalIdent]value.Value
+	// zeroIDs lists the local variables numbered %0 in the source. In the IR an
+	// ID of 0 also means "not numbered yet", so AssignIDs cannot validate them.
+	zeroIDs []local
 }
 
 // newFuncGen returns a new generator for the given IR function.
@@ -92,11 +96,45 @@ func (fgen *funcGen) createLocals(oldBlocks []ast.BasicBlock) error {
 	// Note: the type of call instructions and invoke terminators must be
 	// determined before assigning local IDs, as they may be values or non-values
 	// based on return type. This is done by fgen.newLocals.
+	fgen.findZeroIDs(oldBlocks)
 	if err := fgen.f.AssignIDs(); err != nil {
 		return errors.WithStack(err)
 	}
+	for _, v := range fgen.zeroIDs {
+		if v.ID() != 0 {
+			return errors.Errorf("invalid local ID in function %q, expected %s, got %s", fgen.f.Ident(), enc.LocalID(v.ID()), enc.LocalID(0))
+		}
+	}
 	// Index local identifiers.
 	return fgen.indexLocals()
+}
+
+// isZeroID reports whether the given local identifier is the ID %0.
+func isZeroID(ident ir.LocalIdent) bool {
+	return ident.IsUnnamed() && ident.LocalID == 0
+}
+
+// findZeroIDs records the basic blocks, instructions and terminators numbered
+// %0 in the source (function parameters are recorded by irFuncDef).
+func (fgen *funcGen) findZeroIDs(oldBlocks []ast.BasicBlock) {
+	for i, oldBlock := range oldBlocks {
+		block := fgen.f.Blocks[i]
+		if n, ok := oldBlock.Name(); ok && isZeroID(labelIdent(n)) {
+			fgen.zeroIDs = append(fgen.zeroIDs, block)
+		}
+		for j, oldInst := range oldBlock.Insts() {
+			if def, ok := oldInst.(*ast.LocalDefInst); ok && isZeroID(localIdent(def.Name())) {
+				if v, ok := block.Insts[j].(local); ok {
+					fgen.zeroIDs = append(fgen.zeroIDs, v)
+				}
+			}
+		}
+		if def, ok := oldBlock.Term().(*ast.LocalDefTerm); ok && isZeroID(localIdent(def.Name())) {
+			if v, ok := block.Term.(local); ok {
+				fgen.zeroIDs = append(fgen.zeroIDs, v)
+			}
+		}
+	}
 }
 
 // newLocals creates scaffolding IR local variables (without bodies but with
